@@ -4,6 +4,7 @@ import re
 import e1
 import e4
 import e6
+import mutset
 from common import Finding, Result
 from facts import BrokenCheck
 
@@ -142,10 +143,11 @@ WHO_MAY_CALL = {
                      "only the two default methods that first move the order key"),
     "delete_by_id": (["xml_info::HasChildren::delete", "xml_info::XmlItem::remove_from_parent"],
                      "delete (clears the order key afterwards) and the detach step of insert_by_id"),
-    "xml_info::XmlElement::push_child": (["xml_info::XmlElement::node"], "constructor only"),
-    "xml_info::XmlDocument::push_child": (["xml_info::XmlDocument::new", "xml_info::XmlDocument::new::add_misc"], "constructor only"),
-    "xml_info::XmlDocumentTypeDeclaration::push_child": (["xml_info::XmlDocumentTypeDeclaration::node"], "constructor only"),
-    "xml_info::XmlElement::push_attribute": (["xml_info::XmlElement::node"], "constructor only"),
+    # "CONSTRUCTORS" = the constructors of mutset (node / new / empty ...) and private helpers called from constructors only
+    "xml_info::XmlElement::push_child": ("CONSTRUCTORS", "constructor only"),
+    "xml_info::XmlDocument::push_child": ("CONSTRUCTORS", "constructor only"),
+    "xml_info::XmlDocumentTypeDeclaration::push_child": ("CONSTRUCTORS", "constructor only"),
+    "xml_info::XmlElement::push_attribute": ("CONSTRUCTORS", "constructor only"),
     "xml_info::XmlElement::append_attribute": (["xml_dom::<XmlElement as ElementMut>::set_attribute_node"], "DOM attribute setter"),
     "xml_info::XmlElement::remove_attribute": (["xml_dom::<XmlElement as ElementMut>::set_attribute_node",
                                                 "xml_dom::<XmlElement as ElementMut>::remove_attribute"], "DOM attribute setters"),
@@ -162,6 +164,7 @@ WHO_MAY_CALL = {
 def who_may_call(facts, res):
     rule = "R12-2"
     st = res.rule(rule, instances=0)
+    mutset.prepare(facts)
     for callee, (allowed, why) in WHO_MAY_CALL.items():
         if "::" in callee:
             pred = lambda n, c=callee: n == c
@@ -172,7 +175,7 @@ def who_may_call(facts, res):
             raise BrokenCheck("R12-2: no caller of %s found" % callee)
         for caller, e in cs:
             st["instances"] += 1
-            ok = caller["path"] in allowed
+            ok = mutset.is_constructor(caller["path"]) if allowed == "CONSTRUCTORS" else caller["path"] in allowed
             res.oblige(1, ok)
             if not ok:
                 res.add(Finding(rule, "%s<-%s" % (callee, caller["path"]),
